@@ -67,4 +67,12 @@ theorem publish_before_record_loses_a_frame :
     let s := run pubThenLockedRec 1 [.producer, .subscriber, .subscriber, .producer, .producer, .producer]
     complete 1 s = true ∧ output s = [] := Rip.Cex.C06.lost_frame
 
+/-- the task emitter draws the seq inside the critical section that publishes and records the frame:
+the per-task seq lock (2) is taken first and released last, around the buffer lock (1) — so with
+several emitters on one task stream (stdout and stderr pumps) seq order = publish order = record
+order = log order -/
+theorem gen_task_emit_seq_critical :
+    (Rip.Gen.orderOf 3).head? = some (.lock 2) ∧ (Rip.Gen.orderOf 3).getLast? = some (.unlock 2) ∧
+    ((Rip.Gen.orderOf 3).filter (fun e => e == .lock 2 || e == .unlock 2)).length = 2 := by decide
+
 end Rip.Props.C06
